@@ -67,7 +67,15 @@ func (bb *baseBuilder) del(role string) {
 
 func (bb *baseBuilder) finish(alpha []string, extraProbe []string) (*Base, error) {
 	if bb.err != nil {
+		if bb.s.DB != nil {
+			if msg := bb.s.Check(); msg != "" {
+				return nil, &BaseViolation{Base: bb.b.Name, Cfg: bb.b.Cfg.Name, Seed: bb.b.Seed, Msg: msg + " (the builder stopped with: " + bb.err.Error() + ")"}
+			}
+		}
 		return nil, fmt.Errorf("building base %s: %v", bb.b.Name, bb.err)
+	}
+	if msg := bb.s.Check(); msg != "" {
+		return nil, &BaseViolation{Base: bb.b.Name, Cfg: bb.b.Cfg.Name, Seed: bb.b.Seed, Msg: msg}
 	}
 	s := bb.s
 	if vi, err := s.DB.VerifIndex(); err == nil {
